@@ -351,7 +351,7 @@ func Run(r *evid.Run) {
 		depth = 4
 	}
 	r.Check = "c01"
-	r.Rule(fmt.Sprintf("(a) every command sequence of length 0..%d over a %d-command alphabet on keys {a,ab,b} (prefix-related) and values {'',1,2}, each applied one-entry-per-call and all-in-one-call on a fresh real FSM, every result and 67 probe reads + both indices compared with a sorted-map model, the full-form probes repeated after a memtable flush (Sync) and after close + reopen against the same model; (b) 3 contents over a 14-key adversarial alphabet x every range delete over all bound pairs x 4 flag combinations followed by every range read over all bound pairs in 3 forms. A case is non-trivial when a command changed the model state or returned a response; distinct = distinct (results, probe answers) renderings", depth, len(alpha)))
+	r.Rule(fmt.Sprintf("(a) every command sequence of length 0..%d over a %d-command alphabet on keys {a,ab,b} (prefix-related) and values {'',1,2}, each applied one-entry-per-call and all-in-one-call on a fresh real FSM, every result and 67 probe reads + both indices compared with a sorted-map model, the full-form probes repeated after a memtable flush (Sync) and after close + reopen against the same model; (b) 3 contents over a 14-key adversarial alphabet x every range delete over all bound pairs x 4 flag combinations followed by every range read over all bound pairs in 3 forms. (c) for every pair of key lengths 1..20 x 2 orders: two plain puts followed, in the SAME apply call, by put+prev, transaction with range predicate and reads, counted range and point deletes (all served from the call's pending writes) and a second call, every result against the model. A case is non-trivial when a command changed the model state or returned a response; distinct = distinct (results, probe answers) renderings", depth, len(alpha)))
 	total := par.SeqCount(len(alpha), depth)
 	r.Extra("alphabet", describe(alpha, seqAll(len(alpha))))
 	done := par.For(total*2, r.Expired, func(i int64) {
@@ -391,8 +391,87 @@ func Run(r *evid.Run) {
 		r.Cap(fmt.Sprintf("deadline: %d of %d wide cases", wdone, wideTotal))
 	}
 	r.Extra("wide_cases", wdone)
+	// (c) key lengths inside one apply call: reads served from the call's own pending writes (the
+	// indexed batch) for every pair of key lengths
+	const maxLen = 20
+	ldone := par.For(int64(maxLen*maxLen*2), r.Expired, func(i int64) {
+		c := Case{Kind: "lengths", Lo: int(i%maxLen) + 1, Hi: int(i/maxLen%maxLen) + 1, Flags: int(i / maxLen / maxLen)}
+		vs, outcome, nt := RunLengths(c)
+		r.Outcome(outcome, nt)
+		for _, v := range vs {
+			r.Violate(v.sig, v.detail, c)
+		}
+	})
+	r.Extra("length_pair_cases", ldone)
 	r.Assume("the state machine sees commands in the shape the wire codec produces (commands are marshalled and unmarshalled before apply)")
 	r.Assume("results without responses (DUMMY, empty SEQUENCE) carry no payload; their revision is decided under C10")
+}
+
+// RunLengths: keys x^L1 and y^L2 (x<y or x>y by Flags) written by plain puts and then read, counted,
+// range-deleted and compared by later commands of the SAME apply call (and again after it), for the
+// pair of lengths (c.Lo, c.Hi): the pending writes of a call must be the same sorted map as the
+// committed table whatever the key lengths.
+func RunLengths(c Case) (vs []viol, outcome string, nontrivial bool) {
+	env := fsmx.NewEnv()
+	inst, _, err := env.Open("t", 10001, fsm.RecoveryTypeSnapshot)
+	if err != nil {
+		return []viol{{"open-error", err.Error()}}, "", false
+	}
+	defer inst.Close()
+	m := refkv.New()
+	x, y := "a", "b"
+	if c.Flags == 1 {
+		x, y = "b", "a"
+	}
+	k1, k2 := strings.Repeat(x, c.Lo), strings.Repeat(y, c.Hi)
+	lo, hi := k1, k2
+	if lo > hi {
+		lo, hi = hi, lo
+	}
+	calls := [][]*regattapb.Command{
+		{ // one call: two plain puts, then commands that read the pending writes
+			Put(k1, "1", false), Put(k2, "2", false),
+			Put(k1, "3", true),
+			Txn(Cmps(Exists(lo, wild)), Ops(OpGet(lo, wild, 0, false, false), OpGet(hi, nil, 0, false, false), OpGet("\x00", B(hi), 0, false, false)), Ops(OpPut("wrong-branch", "x", false))),
+			Del(lo, B(hi), true, true),
+			Del(hi, nil, true, true),
+			Put(k2, "4", true),
+			Del("\x00", wild, true, true),
+		},
+		{Put(k2, "5", false), Put(k1, "6", false), Del(hi, wild, false, true), Txn(Cmps(Exists(lo, nil)), Ops(OpDel(lo, wild, true, true)), Ops(OpPut("wrong-branch", "x", false)))},
+	}
+	idx := uint64(0)
+	var sb strings.Builder
+	for ci, call := range calls {
+		var ents []sm.Entry
+		for _, cmd := range call {
+			idx++
+			ents = append(ents, fsmx.Entry(idx, cmd))
+		}
+		out, err := inst.Update(ents)
+		if err != nil {
+			return append(vs, viol{"lengths/update-error", err.Error()}), "", true
+		}
+		for i, cmd := range call {
+			w := fsmx.Wire(cmd)
+			v, cr := m.Apply(ents[i].Index, w)
+			if got, want := fsmx.NormalizeObserved(out[i]), fsmx.ExpectStr(v, cr); got != want {
+				vs = append(vs, viol{"lengths/result-mismatch-inside-apply-call/" + cmdKind(w), fmt.Sprintf("key lengths %d and %d (%s first), call %d command %d %s: got %s want %s", c.Lo, c.Hi, x, ci, i, fsmx.CmdStr(w), got, want)})
+			}
+			sb.WriteString(fsmx.NormalizeObserved(out[i]))
+		}
+	}
+	return vs, fmt.Sprintf("L%d/%d/%d", min(c.Lo, 9), min(c.Hi, 9), c.Flags) + fmt.Sprint(len(vs) == 0), true
+}
+
+// RunLengthsExt is RunLengths for other checks (C02 takes the transaction results).
+func RunLengthsExt(c Case) (sigs, details []string) {
+	vs, _, _ := RunLengths(c)
+	for _, v := range vs {
+		sigs = append(sigs, v.sig)
+		details = append(details, v.detail)
+	}
+	return
 }
 
 func seqAll(n int) []int {
@@ -412,6 +491,8 @@ func Replay(raw json.RawMessage) (string, bool) {
 	var vs []viol
 	if c.Kind == "wide" {
 		vs, _, _ = RunWide(c)
+	} else if c.Kind == "lengths" {
+		vs, _, _ = RunLengths(c)
 	} else {
 		vs, _, _ = RunSeq(Alphabet(), c)
 	}
